@@ -19,6 +19,36 @@ CLAIMED = {
          'is decided by the correspondence on explored inputs, not by a theorem. Distinct x is required by the theorem (ties are ordered by position).'),
    technique='Lean 4 proof of permutation equivariance of a hand-written wrapper model + bit-exact model/implementation correspondence over all methods',
    design='4.C02'),
+ 'C11': dict(
+   text=('Lean 4 theorems (PbVerif.Props.C11): the coefficient loop of difference_matrix yields the signed binomials of the d-fold '
+         'forward difference for every d; the band specification equals the dense D\'D (windowed-sum lemma), which is symmetric and '
+         'banded; the slice-assignment tables of _diff_1/2/3_diags are REGENERATED FROM THE SOURCE on every run (translator, Route A) '
+         'and proved equal to D\'D in lower and full LAPACK layout for EVERY N >= 2d+1 via a clamp lemma for the table interpreter plus '
+         'kernel-checked `decide` at one reduced size and the finitely many small sizes; padding adds only zero rows; lower->full and '
+         'full->lower conversions are exact; and for EVERY history of reconfigurations (diff_order, allow_lower, reverse_diags, '
+         'allow_pentapy, padding; pentapy installed or not; every N) the re-used PenalizedSystem equals a fresh one. Correspondence: '
+         'translated tables vs the real functions, diff_penalty_diagonals/diff_penalty_matrix/difference_matrix vs the model for d=0..6 '
+         'over all branches and paddings, random reconfiguration histories of real PenalizedSystem/PSpline objects vs the model state '
+         'machine and vs fresh objects.'),
+   note=('Trusted: Lean kernel; axioms propext, Classical.choice, Quot.sound; translate.py (AST fragment -> table; cross-checked against '
+         'the real functions each run); the correspondence harness. SciPy sparse path for d>3 or N<2d+1 is tied by the correspondence '
+         'only (exact integer comparison on explored sizes), not by a theorem.'),
+   technique='Lean 4 proof over tables translated from the source on every run (clamp lemma + kernel decide) + state-machine refinement proof + exact correspondence',
+   design='4.C11'),
+ 'C14': dict(
+   text=('Lean 4 theorems (PbVerif.Props.C14) about a model of SciPy\'s reflect-mode flat grey morphology validated bit-for-bit against '
+         'scipy.ndimage: reflection commutes with symmetric-window erosion/dilation; hence for every length >= 1 and every half window '
+         '(also windows longer than the data) opening <= data, opening is idempotent and commutes with shifts; mor <= data and commutes '
+         'with shifts; every imor iterate <= data; the snip clipping loop (all filter orders 2-8, per-side windows, increasing or '
+         'decreasing schedule, any padding) returns the data\'s length, is <= data, and commutes with shifts. Correspondence: real '
+         'tophat/mor/imor (1-D and 2-D) and snip vs the model, bit-exact on integer/half-integer data, windows from 1 to beyond N; the '
+         'rubberband mask is checked by a decidable lower-convex-hull certificate evaluated by the model driver in exact rationals; the '
+         'property inequalities, idempotence and shift laws are also evaluated directly on the real code.'),
+   note=('Trusted: Lean kernel; axioms propext, Classical.choice, Quot.sound; harness. 2-D laws and the hull certificate are checked by '
+         'correspondence/certificate on explored inputs, not proved; Qhull is a black box whose output is certified; snip with smoothing '
+         'is outside the <=-data clause; shift/idempotence laws are stated for an explicit half_window.'),
+   technique='Lean 4 proof of lattice laws of reflect-mode morphology and of the snip loop + bit-exact correspondence + exact hull certificate',
+   design='4.C14'),
 }
 
 checks = []
